@@ -151,8 +151,8 @@ REGEXES = ["/a.b/", "/^[a-z]+$/", "/\\d{2}/", "/(x|y)z/", "/a\\/b/", "/\\s+x/"]
 
 
 def kinds():
-    hs = [["h", "a"], ["h", "0"], ["h", "x y"], ["h", "a", ["asbool"]], ["h", "h-1"], ["h", "a_b.nocontrib".split(".")[0], ["nocontrib"]], ["h", "a. b"], ["h", "a.b"]]
-    vs = [["v", "x"], ["v", "x", ["k"]], ["v", "x", ["asbool"]], ["v", "x", ["k", "onmatch"]], ["v", "x-y"]]
+    hs = [["h", "a"], ["h", "0"], ["h", "x y"], ["h", "a", ["asbool"]], ["h", "h-1"], ["h", "a_b.nocontrib".split(".")[0], ["nocontrib"]], ["h", "a. b"], ["h", "a.b"], ["h", "2nd"], ["h", "_u-1"], ["h", "12"]]
+    vs = [["v", "x"], ["v", "x", ["k"]], ["v", "x", ["asbool"]], ["v", "x", ["k", "onmatch"]], ["v", "x-y"], ["v", "2x"], ["v", "x_1"], ["v", "x", ["2"]]]
     ts = [["t", "abc", "str"], ["t", "a b,c", "str"], ["t", "", "str"], ["t", "5", "int"], ["t", "-3", "int"], ["t", "+2", "int"], ["t", "1.5", "float"], ["t", "-0.25", "float"], ["t", ".5", "float"],
           ["t", "x]y", "str"], ["t", "x[y", "str"], ["t", "p ~ q", "str"], ["t", "a$b #c @d", "str"], ["t", "s->t==u", "str"], ["t", "(z),/re/", "str"],  # grammar punctuation inside a string
           ["t", "two\n    lines", "str"], ["t", "  a\tb   c ", "str"],  # a line break / runs of blanks inside a string belong to the string
